@@ -318,9 +318,12 @@ where
         &mut params,
     )?;
 
+    // The first pass is unconditional: a sum of squares that is large compared
+    // with tol absorbs any multiple of tol added to it to force a first pass
+    let mut first_pass = true;
     let mut last_sum_sq = sum_sq;
-    sum_sq += N::from_u8(2).unwrap().real() * tol;
-    while (last_sum_sq - sum_sq).abs() > tol {
+    while first_pass || (last_sum_sq - sum_sq).abs() > tol {
+        first_pass = false;
         last_sum_sq = sum_sq;
         // Get right side of iteration equation
         let diff = &ys - &evaluation;
@@ -452,9 +455,12 @@ where
         &mut params,
     )?;
 
+    // The first pass is unconditional: a sum of squares that is large compared
+    // with tol absorbs any multiple of tol added to it to force a first pass
+    let mut first_pass = true;
     let mut last_sum_sq = sum_sq;
-    sum_sq += N::from_u8(2).unwrap().real() * tol;
-    while (last_sum_sq - sum_sq).abs() > tol {
+    while first_pass || (last_sum_sq - sum_sq).abs() > tol {
+        first_pass = false;
         last_sum_sq = sum_sq;
         // Get right side of iteration equation
         let diff = &ys - &evaluation;
